@@ -695,6 +695,9 @@ def r2_r3(ctx: Ctx, rep: Report):
         payload = arg_for(call, init, "payload")
         if payload is not None and template_parts(payload) is None:
             payload = expand_locals(payload, fn.node)        # payload = '..' + format(..) + ..; super().__init__(payload, ..)
+        if payload is not None and template_parts(payload) is None:
+            from ..astutil import inline_pure_calls           # '032c05' + self._payload_helper(a, b, ..)
+            payload = inline_pure_calls(ctx.res, fn, payload, guards=True)
         parts = template_parts(payload) if payload is not None else None
         key = "%s:%s" % (fn.short, norm(payload)[:40] if payload is not None else "?")
         if parts is None:
